@@ -194,6 +194,24 @@ never-closed channel (schedule: cleaner enters a tick, closer takes the latch, r
 theorem C16_background_replace_witness :
     holdsG (gObs (gFinal .replace 1 1 [1, 1, 2, 2, 0, 2, 1, 1, 1])) = false := by decide
 
+/-! ## Bridge.Close and late attaches -/
+
+/-- **Every history and every interleaving** of any number of `Bridge.Close` callers with any
+number of `SetSourceConnection` / `SetTargetConnection` calls (`pcs` = which thread does what,
+`s` = the schedule, not even required to let them finish): once one more `Close` — the last one,
+`runBridgeLifecycle`'s deferred `Close` — has run, no connection is left attached, and every
+connection ever attached was closed exactly once or had been overwritten by a later attach while
+still attached (`lost`, excluded by well-formed histories). -/
+theorem C16_bridge_attach (pcs : List APc) (s : Schedule) :
+    holdsA (aObs (closeSeq false (run (aProg false) s (aInit pcs)).sh)) = true :=
+  holdsA_closeSeq _ (aInv_run pcs s)
+
+/-- The rejected "already closed → return" guard at the top of `Close`: Close, then a target
+attaches, then the last Close — the target connection is never closed. -/
+theorem C16_bridge_attach_guard_witness :
+    holdsA (aObs (closeSeq true (run (aProg true) [0, 0, 0, 1] (aInit [.a1, .attT])).sh)) = false := by
+  decide
+
 /-! ## Traffic report -/
 
 /-- **Totals reported exactly once, every schedule.** Any list of rounds (bytes counted, then any
@@ -299,6 +317,8 @@ example : uObs (uFinal .setCtxFirst 1 [1, 1, 1, 1]) = ⟨3, 1, false, 0, false, 
 example : uObs (uFinal .casFirst 1 [0, 1, 1, 1, 1, 0, 0, 0]) = ⟨3, 1, true, 2, false, false⟩ := by decide
 example : holdsG (gObs (gFinal .keep 1 1 [1, 1, 2, 2, 0, 2, 1, 1, 1])) = true := by decide
 example : (gFinal .replace 1 1 [1, 1, 2, 2, 0, 2, 1, 1, 1]).ths[1]? = some ⟨GPc.wait, 0, 1⟩ := by decide
+example : aObs (closeSeq false (run (aProg false) [0, 0, 0, 1] (aInit [.a1, .attT])).sh) = ⟨1, 1, 1, 1, 0, 0, 0⟩ := by decide
+example : aObs (closeSeq true (run (aProg true) [0, 0, 0, 1] (aInit [.a1, .attT])).sh) = ⟨1, 1, 1, 0, 0, 0, 1⟩ := by decide
 example : (bFinal 3 [0, 1, 2, 2, 1, 0]).sh.sc = 2 ∧ (bFinal 3 [0, 1, 2, 2, 1, 0]).sh.cleanups = 1 := by decide
 
 end Tunnox.C16
